@@ -419,6 +419,7 @@ def check_property(prop, tier='quick'):
             'solver': 'Z3 (bundled with Verus)', 'smt_ms': smt_ms,
             'rewrites_applied': rewrites, 'manual_rewrites': manual, 'outlined': outlined,
             'vacuity_guards_failed_as_expected': vac_expected,
+            'hints_dropped_anchor_lost': [h for ur in results if not ur.error for h in ur.u.hints_dropped],
             'statement_clauses_covered': spec.get('covered', []),
             'statement_clauses_not_covered': spec.get('not_covered', []),
             'bounded': extra.get('kani', {}).get('bounded', []) if extra else [],
